@@ -73,6 +73,8 @@ IDMODES = {
     "two-chains": [("A", 1, None), ("A", 2, None), ("B", 1, None), ("B", 2, None)],
     "two-chains-icodes": [("A", 5, None), ("A", 5, "A"), ("B", 5, None), ("B", 5, "A")],
     "negative": [("A", -2, None), ("A", -1, None), ("A", 0, None), ("A", 1, None)],
+    # two different residues at one position (microheterogeneity: the residue names differ), then two ordinary ones
+    "same-position": [("A", 10, None), ("A", 10, None), ("A", 11, None), ("A", 12, None)],
 }
 OCC4 = [(1.0, 1.0, 1.0, 1.0), (0.5, 1.0, 0.25, 1.0), (1.0, 0.25, 0.5, 0.75), (0.25, 0.5, 1.0, 0.5), (0.5, 0.5, 0.5, 0.5)]
 
@@ -166,14 +168,14 @@ def to_residues(atoms):
 
     groups = []
     for a in atoms:
-        key = (a[0], a[1], a[2])
+        key = (a[0], a[1], a[2], a[6] if len(a) > 6 else None)
         if groups and groups[-1][0] == key:
             groups[-1][1].append(a)
         else:
             groups.append((key, [a]))
     res = []
-    for (chain, num, rn), ats in groups:
-        auth = ResidueAuth(chain, num, None, rn)
+    for (chain, num, rn, icode), ats in groups:
+        auth = ResidueAuth(chain, num, icode, rn)
         al = tuple(Atom(None, None, auth, 1, a[3], float(a[4][0]), float(a[4][1]), float(a[4][2]), a[5]) for a in ats)
         res.append(Residue3D(None, auth, 1, rn if len(rn) == 1 else "?", al))
     return res
@@ -437,6 +439,7 @@ def run_case(case):
         nt = run_find(residues, out, case["file"] + "/" + case["variant"])
     elif case.get("report"):
         atoms = report_atoms(case)
+        run_find(to_residues(atoms), out, "report")
         nt = check_cli(atoms, out)
         if nt == 0:
             out.append(viol("harness:report-family-without-clashes", "the report family is built to clash under every flag set; none was listed"))
